@@ -604,7 +604,9 @@ func vfPairRun(cfg vfPairCfg, bound int, body func(p *vfPair)) explore.RunFunc {
 				v.Signature += ":after-mtu-shrink-with-data-queued"
 			}
 		case out.Status == vrt.Failed:
-			if p == nil || p.owned("C15:") || strings.HasPrefix(out.Fail, "pool:") == false {
+			if p != nil && p.owned("C14:") && strings.HasPrefix(out.Fail, "pool:") {
+				v.Violation, v.Signature = out.Fail, "C14:pooled-buffer-with-two-owners:"+firstWords(out.Fail, 5)
+			} else if p == nil || p.owned("C15:") || strings.HasPrefix(out.Fail, "pool:") == false {
 				v.Violation, v.Signature = out.Fail, "C15:"+firstWords(out.Fail, 5)
 				if !strings.HasPrefix(out.Fail, "pool:") {
 					v.Signature = owner + "fail:" + firstWords(out.Fail, 5)
